@@ -312,6 +312,10 @@ func parseMsgPipelineRcptCfg(globals map[string]interface{}, nodes []config.Node
 			return nil, config.NodeErr(node, "invalid directive")
 		}
 	}
+	if len(rcpt.targets) == 0 && rcpt.rejectErr == nil {
+		// Otherwise recipients handled by the block are accepted and silently dropped.
+		return nil, fmt.Errorf("block contains neither 'deliver_to' (or 'reroute') nor 'reject', use 'reject' to reject messages")
+	}
 	return &rcpt, nil
 }
 
